@@ -211,6 +211,43 @@ func (c *Ctx) readerLoops(rule string, fns []*ssa.Function) {
 				return false
 			}
 			c.R.Check(!spin(rb), rule, key, c.pos(cs.Pos()), "with this Read returning (0, a persistent non-sentinel error) the loop can come back to the Read: a truncated or corrupt stream makes the decoder spin for ever")
+			// io.Reader contract: n > 0 bytes may come together with the error (io.EOF with the last chunk): the bytes
+			// are consumed before any branch on the error
+			if nV != nil && errV != nil && rule != "R15.T" { // dropping bytes is wrong output, not a panic or a loop: not C15's business
+				var uses []ssa.Instruction
+				if nV.Referrers() != nil {
+					for _, rf := range *nV.Referrers() {
+						if sl, ok := rf.(*ssa.Slice); ok && sl.High == nV {
+							uses = append(uses, sl)
+						}
+					}
+				}
+				if len(uses) > 0 {
+					okOrder := true
+					where := ""
+					for _, i := range an.Ifs(f) {
+						cd, ok := an.Classify(i)
+						if !ok || !reachesBlock(rb, i.Block(), map[*ssa.BasicBlock]bool{}) {
+							continue
+						}
+						onErr := (cd.Kind == "nil" && cd.X == errV) || (cd.Kind == "eq" && (an.Unconv(cd.X) == errV || an.Unconv(cd.Y) == errV)) ||
+							(strings.HasPrefix(cd.Kind, "call:errors.Is") && cd.X == errV)
+						if !onErr {
+							continue
+						}
+						dominated := false
+						for _, u := range uses {
+							if an.InstrDominates(u, i) {
+								dominated = true
+							}
+						}
+						if !dominated {
+							okOrder, where = false, c.pos(i.Cond.Pos())
+						}
+					}
+					c.R.Check(okOrder, rule, key+"/bytes-before-error", c.pos(cs.Pos()), "the n bytes of this Read are used before the error is looked at (a reader may return the last chunk together with io.EOF; branching on the error first at "+where+" drops it)")
+				}
+			}
 		}
 	}
 }
